@@ -118,12 +118,9 @@ func formatString(formatStr *value.String, params *value.Array) (*value.String, 
 */
 func elementToString(formatter string, elem r.Element) (string, error) {
 	if formatter == "" {
-		switch elem.(type) {
-		case *value.String, *value.Number, *value.Bool, *value.Array, *value.HashMap, *value.Null:
-			return elem.String(), nil
-		default:
-			return "", zerr.InvalidParamType("")
-		}
+		// whatever the element is - an object, a method, a type as well: inside a list it is
+		// written that way already - {} stands for its display form
+		return elem.String(), nil
 	}
 
 	// if formatter starts from #
